@@ -8,11 +8,11 @@ import (
 
 // vhLogout: a logout message scenario.
 type vhLogout struct {
-	root                                       *etree.Element
-	sig                                        int
-	kind                                       string
-	ID, InResponseTo, Destination, Version     string
-	Issuer, NameID, StatusCode                 string
+	root                                   *etree.Element
+	sig                                    int
+	kind                                   string
+	ID, InResponseTo, Destination, Version string
+	Issuer, NameID, StatusCode             string
 }
 
 func vhLogoutRoot(tag string, sig int, p string) *vhLogout {
